@@ -356,6 +356,15 @@ class Interp:
     def remember(self, el):
         if el is not None and getattr(el, "node_id", None) is not None:
             self.handles[el.node_id] = el
+            # the ports a component / facility / switch came with: their handles are kept as well (the "older handle"
+            # of a port, whose cached child list goes stale when another handle adds or removes a sub-interface)
+            try:
+                ports = list(el.interface_list) if type(el).__name__ in ("Component", "Node") else []
+            except Exception:
+                ports = []
+            for i in ports:
+                if getattr(i, "node_id", None) is not None and i.node_id not in self.handles:
+                    self.handles[i.node_id] = i
         return el
 
     # ---- live lists used to resolve references
@@ -627,6 +636,9 @@ class Interp:
         nid = self.id_of(op.get("id"), s, force=True)
         info.update(name=name, node_id=nid, ifs=refs)
         handles = [self.handle(i, s, 1) for i in refs]
+        if op.get("repeat_at") is not None and len(refs) >= 2:
+            # one of the interfaces is named twice in the list
+            handles.insert(min(op["repeat_at"], len(handles)), self.handle(refs[0], s, 1))
         if op.get("ghost_at") is not None:
             handles.insert(min(op["ghost_at"], len(handles)), self.ghost_interface())
         l = self.topo.add_link(name=name, node_id=nid, ltype=LinkType[op.get("ltype", "Patch")] if op.get("ltype", "Patch")
@@ -684,9 +696,14 @@ class Interp:
         if op.get("need_local_name", True):
             pool2 = [c for c in pool if '"local_name"' in str(s.nodes[c].get("Labels", ""))]
             pool = pool2 or pool
+        if op.get("sibling_name") and any(s.children_cp(c) for c in pool):
+            pool = [c for c in pool if s.children_cp(c)]
         cp = self.pick(pool, op["if"])
         info.update(parent=cp)
         name = self.name_of(op.get("name"), "sub", s, CLS_CP)
+        if op.get("sibling_name") and s.children_cp(cp):
+            # the name of a sub-interface this port already has (must be refused whichever handle is asked)
+            name = s.name(s.children_cp(cp)[0])
         labels = None
         if op.get("vlan") is not None:
             labels = mk_value("labels", {"vlan": op["vlan"]})
@@ -704,7 +721,12 @@ class Interp:
         self.guard_dangling(s, [ch])
         h = self.handle(cp, s, op.get("h", 1))
         info["handle"] = h
-        h.remove_child_interface(name=s.name(ch))
+        name = s.name(ch)
+        if op.get("rename_first"):
+            # the sub-interface is renamed through ANOTHER (fresh) handle first, then removed under its current name
+            name = self.fresh("rn")
+            self.handle(ch, s, 1).rename(name)
+        h.remove_child_interface(name=name)
 
     def op_stale_call(self, op, s, info):
         """a building call made through a handle whose element has been removed from the model since (C09 fault)"""
@@ -964,7 +986,8 @@ op_unpeer = st.fixed_dictionaries({"op": st.just("unpeer"), "k": _k, "h": _h})
 
 def op_add_child(names=_name_fresh, ids=_id_spec):
     return st.fixed_dictionaries({"op": st.just("add_child"), "if": _k, "name": names,
-                                  "vlan": st.sampled_from(["100", "200", "300", "400"]), "id": ids, "h": _h})
+                                  "vlan": st.sampled_from(["100", "200", "300", "400"]), "id": ids, "h": _h,
+                                  "sibling_name": st.sampled_from([False, False, False, True])})
 
 
 op_remove_child = st.fixed_dictionaries({"op": st.just("remove_child"), "k": _k, "h": _h})
